@@ -369,6 +369,32 @@ func (c *Cluster) checkRecovery(victim, boot *SimNode, prevEpoch int, completed 
 			break
 		}
 	}
+	// the database of the recovered node holds the chain it re-delivered: every
+	// re-delivered block, read back past the block cache, has the body that the
+	// (reset) application saw completed with the application's answer
+	if bs, ok := boot.store.(*hg.BadgerStore); ok {
+		for _, d := range boot.app.log {
+			if boot == victim && d.Epoch != victim.epoch {
+				continue
+			}
+			i := d.Block.Index()
+			bs.SimEvictBlock(i)
+			blk, err := bs.GetBlock(i)
+			if err != nil {
+				c.violate("C11", "recovered-database", "redelivered-block-not-in-database", "node %d (%s): block %d was re-delivered by bootstrap but cannot be read from the database: %v", victim.idx, tag, i, err)
+				break
+			}
+			want := d.Digest
+			if d.AppError {
+				want = bodyDigest(&d.Block.Body)
+			}
+			c.stats.probe("recovered-block-read-from-database")
+			if got := bodyDigest(&blk.Body); got != want {
+				c.violate("C11", "recovered-database", "database-block-differs-from-redelivered", "node %d (%s): after bootstrap the database holds block %d with digest %s, the block re-delivered to the application has %s (state hash stored %x, returned %x)", victim.idx, tag, i, got, want, blk.Body.StateHash, d.Resp.StateHash)
+				break
+			}
+		}
+	}
 	known := boot.core().KnownEvents()
 	for id, idx := range completed {
 		if k, ok := known[id]; !ok || k < idx {
